@@ -41,6 +41,7 @@ def parse_prog(text):
 
 
 def run(ctx):
+    ctx.prove("ConcurrencyProofs")   # TLAPS: NoRace and Linearizable for ANY number of goroutines / operations (eager design)
     ctx.model_check("Concurrency", "MC_Conc_voprf.cfg", workers=8)
     ctx.model_check("Concurrency", "MC_Conc_keys.cfg", workers=8)
     ctx.model_check("Concurrency", "MC_Conc_voprf_lazy.cfg", workers=4, expect_violation="Invariant NoRace is violated")
